@@ -113,6 +113,18 @@ def _root_base(t):
     return t
 
 
+def _is_container_value(v):
+    """a list / dict literal (possibly conditional) or a growing list: a value that later statements may extend in place"""
+    a = v.single_atom()
+    if a is None:
+        return False
+    if a.kind in ('list', 'dict', 'comp'):
+        return True
+    if a.kind == 'ite':
+        return _is_container_value(a.args[1]) and _is_container_value(a.args[2])
+    return a.kind == 'call' and str(a.args[0]).startswith('mut.')
+
+
 RESTRUCTURED_UNDECIDED = [False]      # set by a rule around agree_ref: regrouped statements are UNDECIDED, not violations
 
 
@@ -126,7 +138,26 @@ def _match_groups(ctx, rule, title, fi, what_label, A, B, comps, describe):
 
     def merged(evs):
         """events that are identical except for complementary guards (if c: X  else: X) are one unguarded event"""
-        items = [(e, comps(e)) for e in evs]
+        def under_guard(x):
+            """the other components of an event only matter where its guard holds: they are simplified under it
+            (`if n == 2: y = streams[1]` with streams == [a, b] if n == 2 else [a]  stores b)"""
+            gs = [t for lab, t in x if lab == 'guard']
+            if not gs or gs[0].key == T.TRUE.key:
+                return x
+            asg = {}
+            for c in _split_guard(gs[0]):
+                ca = c.single_atom()
+                if ca is not None and ca.kind == 'not':
+                    inner = ca.args[0]
+                    ia = inner.single_atom()
+                    if ia is None or ia.kind != 'and':
+                        asg[inner.key] = False
+                elif ca is None or ca.kind != 'and':
+                    asg[c.key] = True
+            if not asg:
+                return x
+            return [(lab, t if lab == 'guard' else T.assume(t, asg)) for lab, t in x]
+        items = [(e, under_guard(comps(e))) for e in evs]
         out = []
         skip = set()
         for i, (e, x) in enumerate(items):
@@ -336,7 +367,10 @@ def agree_ref(ctx, fi, ref_src, title, what=('return', 'heap', 'substores'), rul
             for e in evs:
                 k = (e.data['base'].key, e.data['name'])
                 g = groups.get(k, [])
-                if len(g) > 1 and e in g and k in II.heap and all({c.key for c in g[0].pc} <= {c.key for c in x.pc} for x in g):
+                # (a list stored once and then grown in place -- `a = [x]; a.append(y)` -- likewise counts with its value at exit)
+                mutated_later = (len(g) == 1 and e in g and k in II.heap and II.heap[k].key != g[0].data['value'].key
+                                 and _is_container_value(g[0].data['value']))
+                if (len(g) > 1 or mutated_later) and e in g and k in II.heap and all({c.key for c in g[0].pc} <= {c.key for c in x.pc} for x in g):
                     if k in done:
                         continue
                     done.add(k)
